@@ -39,6 +39,7 @@ struct Rng {
 // Replay mode: entries come from the recorded tape, 0 when exhausted.
 struct Tape {
   uint64_t seed = 1;
+  uint64_t scen_seed = 0;      // when non-zero, stream 0 (the scenario) is seeded from this instead
   bool replay = false;
   std::map<int, std::vector<uint32_t>> rec;   // stream -> values
   std::map<int, size_t> pos;
